@@ -96,6 +96,18 @@ pub fn run(rep: &Report) {
         for fmt in codec::FMTS {
             let o = judge(&b.payload, &b.disclosures, fmt, devs.is_empty(), &label, l);
             l.outcome(o);
+            if !devs.is_empty() {
+                // from the state this verification left behind, the well-formed base must still be accepted
+                let b0 = sdbuild::build(root, &[]);
+                let jwt = tokens::sign_payload(&b0.payload, Alg::HS256, 0);
+                let pres = Parts { jwt, disclosures: b0.disclosures.clone(), kb: None }.serialize(fmt);
+                let again = drive::verify(&pres, keys::issuer_dec(Alg::HS256, 0), None, None, fmt);
+                if !matches!(&again, Out::Ok(c) if c == &base_claims) {
+                    let case = json!({"kind": "c08_after", "payload": b.payload, "disclosures": b.disclosures, "base_payload": b0.payload, "base_disclosures": b0.disclosures, "fmt": fmt.name(), "label": label});
+                    let trig: String = label.split(|c| c == '(' || c == '+').next().unwrap_or("").to_string();
+                    l.violation(Violation::new("verify", if again.is_panic() { "panic" } else { "wellformed_rejected_after_illformed" }, "c08_control_after_deviation", trig, format!("after {label}: the well-formed base gives {}", again.describe()), case));
+                }
+            }
         }
         match spec_verify(&b.payload, &b.disclosures) {
             Spec::Reject(_) => l.nontrivial += 1,
@@ -115,6 +127,20 @@ pub fn run(rep: &Report) {
 
 pub fn replay(case: &Value) -> Vec<Violation> {
     let mut l = Local::default();
+    if case["kind"] == "c08_after" {
+        let fmt = if case["fmt"] == "json" { Fmt::Json } else { Fmt::Compact };
+        let ds = |v: &Value| -> Vec<String> { v.as_array().unwrap().iter().map(|x| x.as_str().unwrap().to_string()).collect() };
+        let p1 = Parts { jwt: tokens::sign_payload(&case["payload"], Alg::HS256, 0), disclosures: ds(&case["disclosures"]), kb: None }.serialize(fmt);
+        let _ = drive::verify(&p1, keys::issuer_dec(Alg::HS256, 0), None, None, fmt);
+        let p0 = Parts { jwt: tokens::sign_payload(&case["base_payload"], Alg::HS256, 0), disclosures: ds(&case["base_disclosures"]), kb: None }.serialize(fmt);
+        let again = drive::verify(&p0, keys::issuer_dec(Alg::HS256, 0), None, None, fmt);
+        if !again.is_ok() {
+            let label = case["label"].as_str().unwrap_or("");
+            let trig: String = label.split(|c| c == '(' || c == '+').next().unwrap_or("").to_string();
+            l.violation(Violation::new("verify", if again.is_panic() { "panic" } else { "wellformed_rejected_after_illformed" }, "c08_control_after_deviation", trig, again.describe(), case.clone()));
+        }
+        return l.violations();
+    }
     let disclosures: Vec<String> = case["disclosures"].as_array().unwrap().iter().map(|x| x.as_str().unwrap().to_string()).collect();
     let fmt = if case["fmt"] == "json" { Fmt::Json } else { Fmt::Compact };
     judge(&case["payload"], &disclosures, fmt, case["control"].as_bool().unwrap_or(false), case["label"].as_str().unwrap_or(""), &mut l);
